@@ -394,9 +394,18 @@ func c11RunLoop(res *h.Result, cs tqWholeCase) (final string, stmts int, err err
 			return fakes12.Rows([]string{"c"}, []driver.Value{cs.Cx}), true
 		}
 		snap := tqctxOf(ctx, cs.Ctx)
-		ans, merr := h.Model([]string{
-			"c11stmt " + snap.ser() + " " + ser + " " + serDb(cs.Db) + " " + serSpans(cs.Spans) + " " + fmt.Sprint(cs.Seed%1000000),
-			"c11plan " + snap.ser() + " " + ser})
+		// the statement the loop sent, as the object tree of a fresh real translation for the context the loop has set
+		// (that a re-executed plan renders what a fresh one renders is C14's business): the database evaluates THAT tree
+		stmtOp := "c11stmt " + snap.ser() + " " + ser + " " + serDb(cs.Db) + " " + serSpans(cs.Spans) + " " + fmt.Sprint(cs.Seed%1000000)
+		if fsel, ftext, _, ferr := implTraceSel(cs.Query, snap); ferr == nil && ftext == q {
+			if ast, aerr := serRealSelect(fsel); aerr == nil {
+				stmtOp = "c11stmtreal " + snap.ser() + " " + serDb(cs.Db) + " " + serSpans(cs.Spans) + " " + fmt.Sprint(cs.Seed%1000000) + " " + ast + " " + h.Hex([]byte(q))
+				res.Count("portions:real-statement-evaluated")
+			}
+		} else {
+			res.Count("portions:model-statement-evaluated")
+		}
+		ans, merr := h.Model([]string{stmtOp, "c11plan " + snap.ser() + " " + ser})
 		cols := []string{"trace_id", "span_id", "duration", "timestamp_ns", "start_time_unix_nano", "duration_ms", "root_service_name", "root_trace_name"}
 		if merr != nil || !strings.HasPrefix(ans[0], "ROWS ") {
 			if inner == nil {
